@@ -63,6 +63,22 @@ theorem PopRel.wfr {s t : Streams} {m : Nat} {r : Streams × Option Streams.OutF
     · rename_i heq; exact absurd heq (hne _ _ _)
     · exact h.trans hr
 
+theorem set_set (a : Store) {st1 st' : Stream} (hk : st1.key = st'.key) : (a.set st1).set st' = a.set st' := by
+  unfold Store.set
+  simp only [List.map_map]
+  congr 1
+  apply List.map_congr_left
+  intro x _
+  simp only [Function.comp]
+  by_cases hx : x.key = st1.key
+  · have e1 : (x.key == st1.key) = true := by simpa using hx
+    have e2 : (st1.key == st'.key) = true := by simpa using hk
+    have e3 : (x.key == st'.key) = true := by simpa using hx.trans hk
+    simp only [e1, if_true, e2, e3]
+  · have e1 : (x.key == st1.key) = false := by simpa using hx
+    have e3 : (x.key == st'.key) = false := by rw [← hk]; exact e1
+    simp only [e1, Bool.false_eq_true, if_false, e3]
+
 /-- the DATA arm: `emitC` charges exactly `len` -/
 theorem charged_emitC {sd : Stream → Nat → Nat → Stream × List String × Bool} (hsd : SdOk sd) {s : Streams}
     (h : SafeInv s) (id len : Nat) (rest : List SFrame)
@@ -82,7 +98,7 @@ theorem charged_emitC {sd : Stream → Nat → Nat → Stream × List String × 
       have : ({ key := id, id := 0 } : Stream).sendFlow.available.asSize = 0 := rfl
       omega
     subst hl0
-    rw [modStream_none hget, panic_store] at hstore
+    rw [modStream_none hget, panic_store, stream_panic, hb] at hstore
     have hk := hsd ((s.panic s!"dangling store key {id}").stream id) 0 (s.panic s!"dangling store key {id}").prio.maxBufferSize
     rw [stream_panic, hb] at hk
     have hslab : (emitC sd s id 0 rest).store.slab = s.store.slab := by
@@ -121,6 +137,7 @@ theorem charged_emitC {sd : Stream → Nat → Nat → Stream × List String × 
     generalize hst' : (sd { st with pendingSend := rest } len
       (s.modStream id fun st => { st with pendingSend := rest }).prio.maxBufferSize).1 = st' at hk hstore
     have hk1 : st'.key = id := by rw [hk.1]; exact hm.2
+    rw [set_set _ (show ({ st with pendingSend := rest } : Stream).key = st'.key by rw [hk1]; exact hm.2)] at hstore
     have hnext : (emitC sd s id len rest).store.nextKey = s.store.nextKey := by rw [hstore]; rfl
     refine ⟨⟨?_, ?_, fun hko => ?_⟩, hnext⟩
     · rw [hflow, hc.2.1]
@@ -132,28 +149,22 @@ theorem charged_emitC {sd : Stream → Nat → Nat → Stream × List String × 
       rw [hav2] at this; simp only at this
       congr 1
     · have hkeys : (emitC sd s id len rest).store.slab.map (·.key) = s.store.slab.map (·.key) := by
-        rw [hstore, set_keys, set_keys]
+        rw [hstore, set_keys]
       refine ⟨⟨by rw [hkeys]; exact hko.1, fun y hy => ?_⟩, fun y hy => ?_⟩
       · obtain ⟨x, hx, hkx⟩ := mem_of_map_key_eq hkeys hy
         rw [hnext, ← hkx]; exact hko.2 x hx
       · rw [hstore] at hy
         simp only [Store.set, List.mem_map] at hy
-        obtain ⟨x1, ⟨x, hx, rfl⟩, rfl⟩ := hy
+        obtain ⟨x, hx, rfl⟩ := hy
         refine Or.inl ⟨x, hx, ?_⟩
         by_cases hxk : x.key = id
         · have hxst : x = st := key_inj hko.1 hx hm.1 (hxk.trans hm.2.symm)
-          have e1 : (x.key == ({ st with pendingSend := rest } : Stream).key) = true := by
-            simp [hxk, hm.2]
-          simp only [e1, if_true]
-          have e2 : (({ st with pendingSend := rest } : Stream).key == st'.key) = true := by simp [hk1, hm.2]
-          simp only [e2, if_true, hxk, hk1]
+          have e1 : (x.key == st'.key) = true := by simp [hxk, hk1]
+          simp only [e1, if_true, if_pos hxk]
           rw [hk.2, hxst]
-          exact ⟨trivial, hsend.2.2.1, hsend.2.1⟩
-        · have e1 : (x.key == ({ st with pendingSend := rest } : Stream).key) = false := by
-            simp [hm.2, hxk]
-          simp only [e1, Bool.false_eq_true, if_false]
-          have e2 : (x.key == st'.key) = false := by simp [hk1, hxk]
-          simp only [e2, Bool.false_eq_true, if_false, hxk]
+          exact ⟨hm.2.trans hk1.symm, hsend.2.2.1, hsend.2.1⟩
+        · have e1 : (x.key == st'.key) = false := by simp [hk1, hxk]
+          simp only [e1, Bool.false_eq_true, if_false, if_neg hxk]
           exact ⟨trivial, by simp, by simp⟩
 
 end H2V.Lemmas.ConnFlowP
